@@ -215,6 +215,6 @@ class MinPathCoverCycles(walkmodel.AbstractWalkModelDiGraph):
 
         if self._lowerbound_k is None:
             stG = stdigraph.stDiGraph(self.G)
-            self._lowerbound_k = stG.get_width(edges_to_ignore=self.edges_to_ignore)
+            self._lowerbound_k = stG.get_width(edges_to_ignore=stG.source_sink_edges.union(self.edges_to_ignore))
 
         return self._lowerbound_k
